@@ -294,6 +294,50 @@ let writer_init_existing acc =
      | _ -> fail acc ~kind:"spec_violation" ~what:"[C08] mtbl_writer_init opened an existing path" (Lazy.force case));
     (try Unix.unlink p with _ -> ()); (try Unix.rmdir p with _ -> ()); (try Unix.unlink target with _ -> ())) kinds
 
+(* mtbl_writer_init on a path that does not exist yet, options NULL: the file appears, holds what the
+   descriptor-based writer with default options writes for the same adds, and no descriptor is left open *)
+let writer_init_fresh acc =
+  let d = tmpdir () in
+  let p1 = Filename.concat d (Printf.sprintf "fresh_%d_path.mtbl" (Unix.getpid ())) in
+  let p2 = Filename.concat d (Printf.sprintf "fresh_%d_fd.mtbl" (Unix.getpid ())) in
+  List.iter (fun (name, ops) ->
+    (try Unix.unlink p1 with _ -> ()); (try Unix.unlink p2 with _ -> ());
+    let case = lazy (JO [ "op", JS "mtbl_writer_init on a fresh path, NULL options"; "entries", JS name ]) in
+    record acc ~key:("fresh" ^ name) ~nontrivial:true ~klass:"writer_init_fresh" case;
+    let nfds () = Array.length (Sys.readdir "/proc/self/fd") in
+    let r = in_child (fun () ->
+        let before = nfds () in
+        let w = c_writer_init p1 in
+        if w = 0n then "NULL" else begin
+          let during = nfds () in
+          let rs = List.map (fun (k, v) -> c_writer_add w k v) ops in
+          c_writer_destroy w;
+          let after = nfds () in
+          let fd = c_open_rw p2 true in
+          let w2 = c_writer_init_fd fd (-1, false, 0, false, 0, false, 0, 0n) in
+          let rs2 = List.map (fun (k, v) -> c_writer_add w2 k v) ops in
+          c_writer_destroy w2; c_close fd;
+          Printf.sprintf "%d %d %b" (during - before) (after - before) (rs = rs2)
+        end) in
+    (match r with
+     | Exited (_, "NULL") -> fail acc ~kind:"spec_violation" ~what:"[C08] mtbl_writer_init refused a path that does not exist" (Lazy.force case)
+     | Exited (_, o) ->
+       (match String.split_on_char ' ' o with
+        | [ during; after; same ] ->
+          if int_of_string after <> 0 then
+            fail acc ~kind:"spec_violation" ~what:"[C18] descriptors left open after mtbl_writer_init ... mtbl_writer_destroy" (JO [ "case", Lazy.force case; "leaked", JS after ]);
+          if int_of_string during <> 1 then
+            fail acc ~kind:"model_mismatch" ~what:"[C18] a path-based writer holds exactly one descriptor (ledger footprint)" (JO [ "case", Lazy.force case; "held", JS during ]);
+          let rd f = let ic = open_in_bin f in let n = in_channel_length ic in let x = really_input_string ic n in close_in ic; x in
+          if same <> "true" || (try rd p1 <> rd p2 with _ -> true) then
+            fail acc ~kind:"spec_violation" ~what:"[C08,C01] the file written through mtbl_writer_init differs from the one written through mtbl_writer_init_fd with default options"
+              (Lazy.force case)
+        | _ -> fail acc ~kind:"model_mismatch" ~what:"[C08] harness error" (JO [ "case", Lazy.force case; "msg", JS o ]))
+     | Signaled (sg, _) -> fail acc ~kind:"spec_violation" ~what:"[C08] mtbl_writer_init on a fresh path stopped the process" (JO [ "case", Lazy.force case; "signal", JI sg ]));
+    (try Unix.unlink p1 with _ -> ()); (try Unix.unlink p2 with _ -> ()))
+    [ ("none", []); ("few", [ ("a", "1"); ("b", "2"); ("a", "refused"); ("c", String.make 9000 'x') ]);
+      ("many", List.init 600 (fun i -> (Printf.sprintf "key%05d" i, String.make (i mod 97) 'v'))) ]
+
 let run ~tier ~seed ~only acc =
   let idx = ref 0 in
   let want () = cur_index := !idx; (match only with None -> true | Some i -> i = !idx) in
@@ -318,6 +362,7 @@ let run ~tier ~seed ~only acc =
     if want () then check_case acc ~klass:"sep_pair_at_cut" ~with_info:false nocfg [ (a, String.make 1100 'v'); (b, "w"); (b ^ "\xff", "x") ];
     incr idx) sep_pairs;
   if want () then writer_init_existing acc; incr idx;
+  if want () then writer_init_fresh acc; incr idx;
   let n = if tier = "thorough" then 6000 else 260 in
   for _ = 1 to n do
     if want () then begin
